@@ -298,6 +298,27 @@ Conserved(cf, st) ==
 
 Total(cf, st) == Sum(st.bal, DOMAIN st.bal)
 
+(***************************************************************************)
+(* Views INSIDE a message.  A message (one EVM transaction) may call the    *)
+(* precompile several times, views between state-changing calls.  A view    *)
+(* answers on the state at its point of the sequence: after exactly the     *)
+(* state-changing calls that precede it in the message (no answer may be    *)
+(* remembered across a state change of the same message).                   *)
+(*   q = [m, d, v]; ops = the state-changing calls of the message in order; *)
+(*   k = how many of them precede the view.                                 *)
+(***************************************************************************)
+StateAtPoint(cf, st, now, c, ops, k) == IF k = 0 THEN st ELSE EffectSeq(cf, st, now, c, SubSeq(ops, 1, k)).st
+
+(* what a view may answer on state st: exact where the state determines it, a range where the chain truncates a
+   sum of fractions the state only knows the integer parts of (rewardsOf, balanceOf) *)
+ViewAnswerOk(cf, st, q, x) ==
+  LET floor == Sum(st.rew[q.d], cf.V)  n == Cardinality(cf.V) IN
+  CASE q.m = "delegationOf"      -> x = st.deleg[q.d][q.v]
+    [] q.m = "rewardOf"          -> x = st.rew[q.d][q.v]
+    [] q.m = "totalDelegationOf" -> x = Sum(st.deleg[q.d], cf.V)
+    [] q.m = "rewardsOf"         -> x >= floor /\ x <= floor + n
+    [] q.m = "balanceOf"         -> x >= st.bal[q.d] + floor /\ x <= st.bal[q.d] + floor + n
+
 (* the view methods as functions of the state *)
 VDelegationOf(st, d, v) == st.deleg[d][v]
 VTotalDelegationOf(cf, st, d) == Sum(st.deleg[d], cf.V)
